@@ -746,23 +746,34 @@ impl Resolver {
             Some(cond) => Some(self.expression(&cond)?),
             None => None,
         };
-        let body = self.block(&branch.body)?;
+        // Variables declared in a branch are local to that branch.
+        let ss = self.stack.len();
+        let body = self.block(&branch.body);
+        self.stack.truncate(ss);
+        let body = body?;
         let span = branch.span;
         Ok(IfBranch { condition, body, span })
     }
 
     fn case_branch(&mut self, branch: &ParserCaseBranch) -> ResolveResult<CaseBranch> {
+        // The binding and the variables declared in an arm are local to that arm.
+        let ss = self.stack.len();
         let variable = &branch
             .variable
             .as_ref()
             .map(|var| self.push_var(var, VarKind::Const));
         let mut body = Vec::new();
         for stmt in branch.body.iter() {
-            match self.statement(stmt)? {
-                None => {}
-                Some(stmt) => body.push(stmt),
+            match self.statement(stmt) {
+                Ok(None) => {}
+                Ok(Some(stmt)) => body.push(stmt),
+                Err(errs) => {
+                    self.stack.truncate(ss);
+                    return Err(errs);
+                }
             }
         }
+        self.stack.truncate(ss);
         Ok(CaseBranch {
             pattern: branch.pattern.clone(),
             variable: *variable,
@@ -828,7 +839,12 @@ impl Resolver {
                     branches.push(self.case_branch(branch)?);
                 }
                 let fall_through = match fall_through {
-                    Some(x) => Some(self.block(x)?),
+                    Some(x) => {
+                        let ss = self.stack.len();
+                        let block = self.block(x);
+                        self.stack.truncate(ss);
+                        Some(block?)
+                    }
                     None => None,
                 };
                 E::Case { to_match, branches, fall_through, span }
